@@ -98,7 +98,7 @@ PROPS['C06'] = {
     'parts': [{'src': 'harness/squeue.cpp', 'prefix': 'C06/', 'variants': ['g17'], 'defs': ['VERIF_ONLY=6']}],
     'rule': 'stateless DFS over all schedules of each generated thread configuration (1-2 producers x 1-2 consumers, consumer op lists of length 1-2 over process/processOne/processIf/processUntil/takeEvent/peekEvent/clearEvents) within the preemption bound; oracle = per-event ledger (exactly once, payload intact, destroyed undelivered only inside clearEvents), per producer/consumer order, no deadlock, HB race detector on the shared lists; distinct = distinct per-execution outcome hashes (ledger + call results)',
     'assumptions': S_ASSUME,
-    'bounds': {'quick': '<=3 child threads, <=3 events, preemption bound 2', 'thorough': '<=4 child threads, preemption bound 3'},
+    'bounds': {'quick': '<=3 child threads, <=3 events, preemption bound 2 (HeterEventQueue: 1)', 'thorough': 'preemption bound 3 for <=3 child threads, 2 for the 4-thread configurations (HeterEventQueue: 2)'},
     'deadline': {'quick': 170, 'thorough': 1700},
 }
 
@@ -108,7 +108,7 @@ PROPS['C07'] = {
     'parts': [{'src': 'harness/squeue.cpp', 'prefix': 'C07/', 'variants': ['g17'], 'defs': ['VERIF_ONLY=7']}],
     'rule': 'stateless DFS over all schedules of waiter/enqueuer/processor configurations (1-2 waiters using wait or waitFor, enqueuers with plain, single and nested DisableQueueNotify scopes, optional processor) within the preemption bound; terminal states with a thread blocked in wait() are judged by the oracle (pending event + no DisableQueueNotify alive = lost wake-up); wait-return clauses checked on the recorded intervals; distinct = distinct per-execution outcome hashes',
     'assumptions': S_ASSUME,
-    'bounds': {'quick': '<=3 child threads, preemption bound 2', 'thorough': '<=4 child threads, preemption bound 3'},
+    'bounds': {'quick': '<=3 child threads, preemption bound 2', 'thorough': 'preemption bound 3 for <=3 child threads, 2 for the 4-thread configurations; one spurious wake-up allowed as a further deviation'},
     'deadline': {'quick': 170, 'thorough': 1700},
 }
 
@@ -118,7 +118,7 @@ PROPS['C11'] = {
     'parts': [{'src': 'harness/squeue.cpp', 'prefix': 'C11/', 'variants': ['g17'], 'defs': ['VERIF_ONLY=11']}],
     'rule': 'stateless DFS over all schedules of observer (emptyQueue / waitFor(0)) x enqueuer x worker (process/processOne/processIf/processUntil/takeEvent/clearEvents) configurations within the preemption bound, listeners themselves calling emptyQueue(); oracle: for every true emptyQueue() / timed-out waitFor with interval [s,r], each event whose enqueue returned before s has by r had its listener return, or its take/clear call begin (intervals oriented so imprecision only weakens the check)',
     'assumptions': S_ASSUME,
-    'bounds': {'quick': '3 child threads, preemption bound 2', 'thorough': '<=4 child threads, preemption bound 3'},
+    'bounds': {'quick': '3 child threads, preemption bound 2 (HeterEventQueue: 1); sequential listener-observer search budget 1', 'thorough': 'preemption bound 3 for 3 child threads, 2 for the 4-thread configurations'},
     'deadline': {'quick': 170, 'thorough': 1700},
 }
 
